@@ -127,6 +127,7 @@ class Ctx:
         self.mono_pairs = []
         self.keep = []  # keep z3 terms alive (ids are recycled after GC)
         self.shadow = None  # concolic translator validation: variable name -> float
+        self.opaque_math = False  # structural harnesses: sqrt/exp/log/trig results are uninterpreted (sound abstraction)
         self.shadow_checked = 0
 
     # -- fresh symbols ------------------------------------------------------------
@@ -781,6 +782,8 @@ def _fr_sqrt(c: Fr):
 
 
 def sv_sqrt(a: SV) -> SV:
+    if Ctx.current is not None and Ctx.current.opaque_math:
+        return _opaque("sqrt", a)
     a = SV.of(a)
     a = _n(a)
     C = ctx()
@@ -807,6 +810,8 @@ def sv_sqrt(a: SV) -> SV:
 
 
 def sv_cbrt(a: SV) -> SV:
+    if Ctx.current is not None and Ctx.current.opaque_math:
+        return _opaque("cbrt", a)
     a = SV.of(a)
     a = _n(a)
     C = ctx()
@@ -865,6 +870,11 @@ def enclosure(fn_name, *args_fr):
     return lo, hi
 
 
+def _opaque(name, *xs):
+    """Uninterpreted abstraction of a numeric primitive (same arguments -> same symbol)."""
+    return SV(t=uf_apply("opq_" + name, [SV.of(x).term() if not (isinstance(x, SV) and x.kind == "B") else bool_to_real(x).term() for x in xs]))
+
+
 _UF_FLOAT = {
     "exp": math.exp, "log": math.log, "exp10": lambda x: 10.0**x, "log10": math.log10, "pow": lambda x, y: x**y,
 }
@@ -878,7 +888,7 @@ def uf_apply(fam, args, guard=None):
     for ar, res, meta in tab:
         if all(x.eq(y) for x, y in zip(ar, args)):
             return res
-    r = C.fresh(fam, val=lambda: _UF_FLOAT[fam](*[C.ev(a) for a in args]))
+    r = C.fresh(fam, val=(lambda: _UF_FLOAT[fam](*[C.ev(a) for a in args])) if fam in _UF_FLOAT else float("nan"))
     tab.append((args, r, {}))
     # basic sign/range facts
     if fam in ("exp", "exp10"):
@@ -923,6 +933,8 @@ def _seed_family(fam):
 
 
 def sv_exp(a):
+    if Ctx.current is not None and Ctx.current.opaque_math:
+        return _opaque("exp", a)
     a = SV.of(a)
     a = _n(a)
     if a.t is None and not _isinf(a) and a.c == 0:
@@ -936,6 +948,8 @@ def sv_exp(a):
 
 
 def sv_log(a):
+    if Ctx.current is not None and Ctx.current.opaque_math:
+        return _opaque("log", a)
     a = SV.of(a)
     a = _n(a)
     if a.t is None and a.c == 1:
@@ -950,6 +964,8 @@ def sv_log(a):
 
 
 def exp10(a):
+    if Ctx.current is not None and Ctx.current.opaque_math:
+        return _opaque("exp10", a)
     a = SV.of(a)
     a = _n(a)
     if a.t is None and not _isinf(a) and a.c.denominator == 1 and abs(a.c) <= 400:
@@ -959,6 +975,8 @@ def exp10(a):
 
 
 def sv_log10(a):
+    if Ctx.current is not None and Ctx.current.opaque_math:
+        return _opaque("log10", a)
     a = SV.of(a)
     a = _n(a)
     if a.e10 is not None:
@@ -978,6 +996,8 @@ def sv_log10(a):
 
 
 def uf_pow(a: SV, b: SV):
+    if Ctx.current is not None and Ctx.current.opaque_math:
+        return _opaque("pow", a, b)
     C = ctx()
     if a.t is None:
         if a.c < 0:
@@ -1157,22 +1177,30 @@ def sincos(a) -> tuple:
 
 
 def sv_sin(a):
+    if Ctx.current is not None and Ctx.current.opaque_math:
+        return _opaque("sin", a)
     a = SV.of(a)
     return SV(t=sincos(a)[0]) if not (a.t is None and a.c == 0) else SV(c=Fr(0))
 
 
 def sv_cos(a):
+    if Ctx.current is not None and Ctx.current.opaque_math:
+        return _opaque("cos", a)
     a = SV.of(a)
     return SV(t=sincos(a)[1]) if not (a.t is None and a.c == 0) else SV(c=Fr(1))
 
 
 def sv_tan(a):
+    if Ctx.current is not None and Ctx.current.opaque_math:
+        return _opaque("tan", a)
     s, c = sincos(a)
     ctx().need("tan", c != 0)
     return SV(t=s / c)
 
 
 def sv_arcsin(x):
+    if Ctx.current is not None and Ctx.current.opaque_math:
+        return _opaque("arcsin", x)
     x = SV.of(x)
     x = _n(x)
     C = ctx()
@@ -1197,6 +1225,8 @@ def sv_arcsin(x):
 
 
 def sv_arccos(x):
+    if Ctx.current is not None and Ctx.current.opaque_math:
+        return _opaque("arccos", x)
     x = SV.of(x)
     x = _n(x)
     C = ctx()
@@ -1222,6 +1252,8 @@ def sv_arccos(x):
 
 
 def sv_arctan2(y, x):
+    if Ctx.current is not None and Ctx.current.opaque_math:
+        return _opaque("arctan2", y, x)
     y, x = SV.of(y), SV.of(x)
     y, x = _n(y), _n(x)
     C = ctx()
